@@ -54,6 +54,10 @@ CHECKS = {
          "deterministic simulation: seeded programs (sequences of the real CLI main() functions with repeated data-writing steps), each command a simulated process with exit handlers on a shared SimFS, versus the all-in-one command; relational oracles over the decoded datasets",
          "Seeded search over synthetic volumes and option sets; oracles: info and decoded voxels equal between all-in-one and step-by-step, decoded contents unchanged by repeating a step, success exit implies every requested file/chunk exists and decodes. A non-zero exit alone is not judged. Sampling, not proof.",
          "Trusts SimProc/SimFS; input NIfTI volumes are real files (nibabel) and are not fault-injected; mesh and slice commands are not part of the generated programs."),
+ "C06": ("exploration",
+         "deterministic simulation of an environment input: the real pyramid driver on SimFS with poisoned np.empty -- every computation runs twice under two different poison bytes (difference => unwritten voxel) and each level is compared with the global downscale of the previous level; infos come from the real scale generator; every transition also exercised on its own",
+         "Seeded search over sizes, resolution ratios (isotropic to strongly anisotropic, dyadic and not), target chunk sizes, methods, data types, channels, encodings and layouts. Oracles: poison independence, global-downscale equality, loud failure allowed except for pairs satisfying the documented processing assumption. Sampling, not proof.",
+         "Trusts the repository's Downscaler.downscale as the definitional operator (C07 not claimed) and the independent 'must complete' predicate in checks/c06.py."),
 }
 
 def main():
